@@ -164,6 +164,11 @@ theorem result_is_spec_table {O : Oracles} {q : AggStmt} (hwf : StmtWF q) {st : 
     finalResult O q { agg := st } = .ok { columns := q.items.map (·.name), rows := t } :=
   finalResult_refines hwf hc hex hspec hvis hd15
 
+/-- **columns stay aligned**: every row of the table has exactly one cell per select-list item (so no value is shifted
+into another column or another group's row); with `agg_refines_spec` this holds for the engine's table -/
+theorem columns_aligned {O : Oracles} {q : AggStmt} {envs : List Env} {t : List (List Value)}
+    (h : table O q envs = some t) : ∀ r ∈ t, r.length = q.items.length := table_rows_aligned h
+
 /-- `publishPercentiles` (the first loop of `execute_result`) cell by cell: aggregators untouched, the stored
 value of a cell becomes what the cell publishes — so a second `execute_result` sees the same cells -/
 theorem publish_cellwise {st : AggState} (hs : AggSorted st) (hinner : ∀ g ∈ st.aggs, (g.2.map (·.1)).Nodup)
